@@ -25,6 +25,32 @@ PROPS = {
         "expected_probes": ["close_checks", "shard_streams_ended"],
         "components_real": ["helpers::Gateway, gateway::{send,receive,transport}, in-memory MPC + shard transports, StreamCollection, OrderingSender, UnorderedReceiver, seq_join"],
     },
+    "C15": {
+        "level": "exploration",
+        "rule": "run = seeded (variant in {seq_join over a pending source, seq_join+try_collect, SeqJoin::try_join, SeqJoin::parallel_join}, window 1..8, "
+                "length 0..40, release permutation, error positions, forward-dependency distance < window, source burst plan, policy); "
+                "non-trivial iff >=1 multi-choice decision and >=2 tasks; distinct by (plan shape, schedule digest)",
+        "scenarios": [
+            {"name": "c15_sj", "quick": 60000, "thorough": 3000000, "offset": 1, "chunk": 3000},
+            {"name": "c15_sj", "quick": 0, "thorough": 1000000, "offset": 2, "chunk": 3000, "flavour": "mt", "thorough_only": True},
+        ],
+        "expected_probes": ["nonfront_polls", "source_pending", "dep_runs", "error_runs"],
+        "components_real": ["seq_join::{seq_join, seq_try_join_all, SeqJoin::try_join, SeqJoin::parallel_join} (local implementation; multi_thread.rs in flavour mt, thorough tier)"],
+        "components_stubbed": ["joined tasks -> harness gate futures released by an environment task", "tokio runtime -> shuttle executor driven by SimScheduler"],
+    },
+    "C16": {
+        "level": "exploration",
+        "rule": "run = seeded (records per batch 1..4, total 1..20 incl. non-multiples, arrival permutation and yield counts, which batches fail, "
+                "batch completion order, driving style in {task per record, join_all, seq_join(window = batch size)}, policy); misuse runs append one illegal call; "
+                "non-trivial iff >=1 multi-choice decision and >=2 records; distinct by (plan shape, schedule digest)",
+        "scenarios": [
+            {"name": "c16_batcher", "quick": 60000, "thorough": 3000000, "offset": 1, "chunk": 3000},
+            {"name": "c16_misuse", "quick": 15000, "thorough": 500000, "offset": 2, "chunk": 1500},
+        ],
+        "expected_probes": ["batches_completed_out_of_order", "partial_last_batch", "failing_batches", "misuse_panicked", "misuse_err"],
+        "components_real": ["protocol::context::batcher::Batcher (crate::sync::Mutex = shuttle), tokio::sync::watch, seq_join"],
+        "components_stubbed": ["batch validation closure -> harness future (logs, waits for an environment token, returns the planned verdict)"],
+    },
     "C14": {
         "level": "exploration",
         "rule": "run = seeded (message size, capacity, read size, record count, writer/receiver task layout, chunking, policy); "
@@ -48,6 +74,18 @@ NOT_APPLICABLE = {
 }
 
 MANIFEST_TEXT = {
+    "C15": {
+        "text": "Seeded exploration of the real seq_join / try_join / parallel_join with gate futures released by an environment task in seeded orders, pending sources, error plans and forward dependencies inside the window. Oracle: exactly-once in input order; at every poll of a joined task the number of started-unfinished tasks is >= min(window, inputs available); every dependency pattern of distance < window terminates (deadlock/step-cap = violation); the fallible variants return the first error in input order; parallel_join returns all-in-order or one of the planned errors. Sampling, not proof.",
+        "design_ref": "DESIGN.md section 4, C15",
+        "note": "quick tier runs the default (single-threaded) implementation; the multi-threaded implementation is built and run in the thorough tier (flavour mt) with a window slack of one (a yielded slot is refilled on the next poll)",
+        "technique": "deterministic simulation: seeded schedule + release-order search over the real join combinators, history oracle",
+    },
+    "C16": {
+        "text": "Seeded exploration of the real Batcher shared by record tasks under a controlled scheduler; the batch check is a harness future finishing in an environment-chosen order with a planned verdict. History oracle: a record resolves only after every record of its batch requested validation and the batch check returned; Ok iff the check succeeded; the check runs exactly once per batch over exactly that batch's records; last partial batch closes at total (no deadlock); misuse (record twice, beyond total, touching a validated batch) ends in Err or panic, never Ok. Sampling, not proof.",
+        "design_ref": "DESIGN.md section 4, C16",
+        "note": "bare Batcher through hook H3; the two validators that embed it are exercised by the C03/C04 scenarios",
+        "technique": "deterministic simulation: seeded arrival/completion-order + schedule search, history (happens-before) oracle",
+    },
     "C13": {
         "text": "Seeded exploration of real Gateways over the repo's in-memory MPC and shard networks: every channel endpoint is a scheduler-controlled task, records are driven through the real seq_join window with seeded yield points and request orders, batching knobs (active work, read size, message size, determinate/indeterminate totals) are drawn per run. Oracle: each receive(i) returns the attributable payload of (channel, i), no foreign payload ever appears, receive(total)/send(total) fail, shard streams end exactly after total, and no deadlock/step-cap occurs while the window is kept full. Sampling, not proof.",
         "design_ref": "DESIGN.md section 4, C13",
